@@ -372,10 +372,51 @@ impl TextPool {
             let base = if rng.chance(1, 6) { rng.pick(FRAGMENTS).to_string() } else { rng.pick(&small).1.clone() };
             texts.push(mutate(rng, &base));
         }
+        // work in progress: a rule nobody refers to yet, with repetitions and optional parts, appended to a grammar
+        // (side stream: the texts above stay what they were)
+        let mut side = rng.child("unused rule variants", 0);
+        for (_, t) in &small {
+            if let Some(v) = with_unused_rule(&mut side, t) {
+                texts.push(v);
+            }
+        }
         let mut seen = std::collections::BTreeSet::new();
         texts.retain(|t| seen.insert(t.clone()));
         TextPool { texts }
     }
+}
+
+fn with_unused_rule(rng: &mut Rng, base: &str) -> Option<String> {
+    // token names declared by the grammar (`token A B='b';`)
+    let mut toks: Vec<String> = vec![];
+    let mut rest = base;
+    while let Some(at) = rest.find("token") {
+        let after = &rest[at + 5..];
+        let end = after.find(';').unwrap_or(after.len());
+        for w in after[..end].split_whitespace() {
+            let name: String = w.chars().take_while(|c| c.is_alphanumeric() || *c == '_').collect();
+            if !name.is_empty() && name.chars().next().is_some_and(|c| c.is_uppercase()) {
+                toks.push(name);
+            }
+        }
+        rest = &after[end..];
+    }
+    if toks.len() < 2 || base.contains("zz_wip") {
+        return None;
+    }
+    // distinct tokens, so that the new rule has no LL(1) conflict of its own
+    toks.sort();
+    toks.dedup();
+    rng.shuffle(&mut toks);
+    let t = |k: usize| toks[k % toks.len()].clone();
+    let body = match rng.below(4) {
+        1 if toks.len() >= 3 => format!("{} [{}] {}+", t(0), t(1), t(2)),
+        2 if toks.len() >= 3 => format!("({} | {})* {}", t(0), t(1), t(2)),
+        3 if toks.len() >= 4 => format!("{} ({} {})+ [{}]", t(0), t(1), t(2), t(3)),
+        _ => format!("{}*", t(0)),
+    };
+    let nl = if base.ends_with('\n') { "" } else { "\n" };
+    Some(format!("{base}{nl}zz_wip: {body};\n"))
 }
 
 // ------------------------------------------------------------------------------------------
@@ -405,6 +446,14 @@ pub fn prepare_scratch() {
 
 pub fn pick_position(rng: &mut Rng, text: &str) -> (u32, u32, PosClass) {
     let spans = line_spans(text);
+    if rng.chance(1, 7) {
+        // exactly on an operator or bracket, anywhere in the text
+        let ops: Vec<usize> = text.char_indices().filter(|(_, c)| "*+?[]()|/^~&<>:;".contains(*c)).map(|(i, _)| i).collect();
+        if !ops.is_empty() {
+            let (l, c) = offset_to_pos(text, ops[rng.below(ops.len())]);
+            return (l, c, PosClass::Inside);
+        }
+    }
     // prefer lines with content
     let mut line = rng.below(spans.len());
     if rng.chance(2, 3) {
@@ -490,9 +539,11 @@ pub fn generate(rng: &mut Rng, pool: &TextPool, max_steps: usize) -> History {
     let w_change = rng.range(1, 4);
     let w_close = rng.range(0, 2);
     let w_req = rng.range(2, 8);
+    // (one text in eight is a grammar with a rule nobody refers to yet)
+    let wip: Vec<&String> = pool.texts.iter().filter(|t| t.contains("zz_wip")).collect();
     let pick_text = |rng: &mut Rng, not: Option<&String>| -> String {
         for _ in 0..8 {
-            let t = rng.pick(&pool.texts);
+            let t = if !wip.is_empty() && rng.chance(1, 8) { *rng.pick(&wip) } else { rng.pick(&pool.texts) };
             if Some(t) != not {
                 return t.clone();
             }
